@@ -11,6 +11,7 @@ package launch
 import (
 	"context"
 	"encoding/json"
+	"errors"
 	"fmt"
 	"net"
 	"os"
@@ -410,6 +411,8 @@ func waitLogLine(root, p, evn string, bound time.Duration) bool {
 	}
 }
 
+var errRuntimeSync = errors.New("verif: the runtime's synchronization function failed on purpose")
+
 // runOnce executes the case once on a fresh tree.
 func runOnce(c C18Case) verdict {
 	h := &history{}
@@ -547,7 +550,16 @@ func runOnce(c C18Case) verdict {
 		opts = append(opts, adaptation.WithDisabledExternalConnections())
 	}
 	a, err := adaptation.New("verif-c18", "1.8",
-		func(ctx context.Context, cb adaptation.SyncCB) error { _, err := cb(ctx, pods, ctrs); return err },
+		func(ctx context.Context, cb adaptation.SyncCB) error {
+			if c.SyncFn == "fail_before" {
+				return errRuntimeSync
+			}
+			_, err := cb(ctx, pods, ctrs)
+			if c.SyncFn == "fail_after" && err == nil {
+				return errRuntimeSync
+			}
+			return err
+		},
 		func(context.Context, []*api.ContainerUpdate) ([]*api.ContainerUpdate, error) { return nil, nil },
 		opts...)
 	if err != nil {
@@ -612,6 +624,32 @@ func runOnce(c C18Case) verdict {
 	overloaded := func(format string, a ...any) verdict {
 		h.note("overloaded: "+format, a...)
 		return verdict{out: ev.Outcome{Overloaded: true, Classes: []string{"overloaded"}, History: h}}
+	}
+	if c.SyncFn != "" {
+		if startErr == nil {
+			// not something C18 speaks about; nothing to judge in this shape
+			h.note("Start succeeded although the runtime's SyncFn returned an error")
+			return verdict{out: ev.Outcome{Excluded: "start_succeeded_despite_syncfn_error", Classes: []string{"excluded"}, History: h}}
+		}
+		// Start-up failed on the runtime's side: nri must not leave behind what it launched.
+		// Every launched process is killed and reaped when Start returns (startPlugins stops
+		// the started plugins on its way out; those that failed earlier were stopped then) —
+		// without the runtime having to call Stop. A process that ended on its own before
+		// registering was never waited for (zombie accepted); closefd is judged after Stop.
+		for _, r := range reports {
+			p, known := plugOf[r.File]
+			switch {
+			case known && p.Behav == bCloseFD:
+			case known && p.Behav == bExit:
+				if v := notDead("after the failed Start (the runtime's SyncFn returned an error)", r, p); v.out.Fail != "" {
+					return v
+				}
+			default:
+				if v := notReaped("after the failed Start (the runtime's SyncFn returned an error; nri must stop the plugins it launched)", r, p); v.out.Fail != "" {
+					return v
+				}
+			}
+		}
 	}
 	if startErr == nil {
 		for _, p := range c.Plugins {
@@ -944,8 +982,13 @@ func judge(c C18Case, h *history, startErr error, reports []Report, lines []Line
 		ext               bool
 	}
 	active := map[string]part{}
+	ops := c.Ops
+	runtimeStartFailure := c.SyncFn != "" && startErr != nil
+	if runtimeStartFailure {
+		ops = nil // nothing is relayed after a failed Start; nobody may have been invoked
+	}
 	for key, p := range expectLaunch {
-		if p.startsUp() {
+		if p.startsUp() && !runtimeStartFailure {
 			active[key] = part{idx: p.Idx, label: p.File(), behav: p.Behav, k: p.K}
 		}
 	}
@@ -965,7 +1008,7 @@ func judge(c C18Case, h *history, startErr error, reports []Report, lines []Line
 	dropsAtEvent, survivors := 0, 0
 	equalIdx, equalIdxMixed, mixedRequests := false, false, 0
 	selfFailedAt := -1 // slot directly after a launched plugin's own failure (dieafter/lingerafter)
-	for i, op := range c.Ops {
+	for i, op := range ops {
 		if startErr == nil {
 			for _, x := range c.Exts {
 				if x.Leave == i {
@@ -1059,7 +1102,7 @@ func judge(c C18Case, h *history, startErr error, reports []Report, lines []Line
 				}
 			}
 		}
-		if dropped && i+1 < len(c.Ops) && len(active) > 0 {
+		if dropped && i+1 < len(ops) && len(active) > 0 {
 			survivors++
 		}
 	}
@@ -1150,6 +1193,21 @@ func judge(c C18Case, h *history, startErr error, reports []Report, lines []Line
 	}
 	if misbehaving > 0 {
 		cls("with_misbehaving")
+	}
+	if c.SyncFn != "" {
+		cls("runtime_syncfn:" + c.SyncFn)
+		n := 0
+		for _, p := range expectLaunch {
+			if p.startsUp() {
+				n++
+			}
+		}
+		if n > 0 {
+			cls("runtime_start_failure_with_registered_plugins")
+		}
+		if n > 1 {
+			cls("runtime_start_failure_with_several_registered_plugins")
+		}
 	}
 	// runtime-side waits spent on plugins that never register / never answer Configure and
 	// sort before a healthy plugin: beyond 5 s they exceed a stub's own registration window
@@ -1345,6 +1403,26 @@ func TestExh_C18(t *testing.T) {
 		Listen:  true,
 		Exts:    []Ext{{Idx: "10", Name: "e0", Join: 0, Leave: 2}, {Idx: "20", Name: "e1", Join: 1, Leave: len(ops) + 1}, {Idx: "05", Name: "e2", Join: 3, Leave: 4}},
 	})
+	// the runtime's own SyncFn fails during Start, before or after it ran nri's plugin-sync
+	// callback: with one healthy plugin, and with healthy ones among the usual bad ones
+	for _, mode := range []string{"fail_before", "fail_after"} {
+		cases = append(cases,
+			C18Case{
+				Plugins: []Plugin{{Idx: "10", Stem: "a", Behav: bOK, Mode: 0o755}},
+				Ops:     ops[:2], SyncFn: mode, SyncPods: 1, SyncCtrs: 2,
+			},
+			C18Case{
+				Plugins: []Plugin{
+					{Idx: "05", Stem: "e", Behav: bExit, K: 1, Mode: 0o755}, {Idx: "10", Stem: "a", Behav: bOK, Mode: 0o755},
+					{Idx: "20", Stem: "f", Behav: bCfgFail, Mode: 0o755}, {Idx: "30", Stem: "s", Behav: bSyncFail, Mode: 0o755},
+					{Idx: "40", Stem: "d", Behav: bDie, K: 1, Mode: 0o700},
+				},
+				Others: []Entry{{Name: "README", Kind: "file", Mode: 0o644, Content: "text"}},
+				Confs:  []Conf{{File: "10-a_ok.conf", Content: "x: y\n"}, {File: "d_die1.conf", Content: "base\n"}},
+				Ops:    ops, SyncFn: mode, Listen: true, Held: []string{"pipe", "unix"},
+				Exts: []Ext{{Idx: "15", Name: "e0", Join: 1, Leave: len(ops) + 1}},
+			})
+	}
 	// stacked waits: a healthy plugin behind plugins that never register / never answer
 	// Configure, whose runtime-side waits add up to ≈ 6 s — more than the 5 s a stub-based
 	// plugin allows for its own registration. Each costs ≈ 6 s: one in quick, three in thorough.
